@@ -147,6 +147,15 @@ func c20(c *Ctx) {
 			}
 		}
 		c.Expect(timerArm && resetArm && doneArm, sel, f, "wait-arms", "the backoff wait does not select on timer, explicit reset and shutdown")
+		// the reset channel waited on is the one current after the attempt failed: it is read after the attempt (a channel read before
+		// the attempt may have been closed and replaced by a ResetConnectBackoff during the attempt; waiting on it returns at once)
+		attempt := one(c, "tryAllAddrs call", callsIn(f, Callee("grpc", "addrConn.tryAllAddrs")))
+		for _, st := range sel.(*ssa.Select).States {
+			if FieldLoad(c.field("grpc", "addrConn", "resetBackoff"))(st.Chan) {
+				ld, _ := strip(st.Chan).(ssa.Instruction)
+				c.Expect(ld != nil && instrDominates(attempt, ld), sel, f, "reset-channel-read-after-the-attempt", "the backoff wait listens on a reset channel that was read before the connection attempt (an explicit reset during the attempt would cancel the following backoff)")
+			}
+		}
 		c.MustFact(tfCall, "failure-reported-only-on-error", NotNil(CallRes(Callee("grpc", "addrConn.tryAllAddrs"), 0)))
 	})
 	c.Ob("backoffIdx", "R1", "the backoff index is written only as +1 when the timer fired, and as 0 on success and on explicit reset, with the subchannel mutex held", 4, func() {
